@@ -33,9 +33,12 @@ def main():
                               extra=("-O2", "-fsanitize-coverage=trace-pc")))
     max_full = 700 if quick else 2500
     rep.rule("per message of the covering corpus and seeded random schemas: one well-formed image (all groups non-empty, "
-             "capped at %d bytes); every generated operation (field get/set named, by tag and cursor-init; composite "
-             "members; 8 array operations; 16 <data> operations; 10 group operations; message header/size/visit/cursor/"
-             "random-access walks) at entry indices {first, last} of every enclosing group x every buffer length n = "
+             "capped at %d bytes); every generated operation (field get/set named, by tag and through cursors with every "
+             "wrapper - plain, init, dont_move, init_dont_move, skip - where the cursor is placed via cursor::pointer() "
+             "without touching the buffer; setters both with a value read first and 'blind' with a default value, so that "
+             "a checked read cannot hide a missing check in the write path; composite members; 8 array operations; "
+             "19 <data> operations; 13 group operations incl. plain/dont_move/skip cursor forms; message header/size/"
+             "visit/cursor/random-access walks) at entry indices {first, last} of every enclosing group x every buffer length n = "
              "0..full. An evaluation is one (operation, n) execution. distinct_nontrivial = distinct (schema, message, "
              "operation kind, member kind) whose run contained at least one n with an assertion and one without." % max_full)
     preps = [p for p in (codec.prepare(sc) for sc in schemas) if p.ok]
